@@ -42,6 +42,11 @@ Test(n, params)      == Item("test", n, params, 0, FALSE, "-", <<>>, <<>>, <<>>)
 TestM(n, params, marks, cmarks, ind) == Item("test", n, params, 0, FALSE, "-", marks, cmarks, ind)
 Star(m)     == Item("star", "-", <<>>, 0, FALSE, m, <<>>, <<>>, <<>>)
 Imp(m, n)   == Item("imp", n, <<>>, 0, FALSE, m, <<>>, <<>>, <<>>)
+\* `from .mod import orig as alias`: name = alias, marks = <<orig>>
+ImpAs(m, orig, alias) == Item("impas", alias, <<>>, 0, FALSE, m, <<orig>>, <<>>, <<>>)
+\* spelled imports (C14): the `scope` field of an import item is the spelling code
+\*   0 = relative level 1 (`.mod`), 1 = absolute (`mod`), 2 = relative level 2 (`..mod`)
+Spelled(it, code) == [it EXCEPT !.scope = code]
 Plugins(m)  == Item("plugins", "-", <<>>, 0, FALSE, m, <<>>, <<>>, <<>>)
 Helper(n)   == Item("helper", n, <<>>, 0, FALSE, "-", <<>>, <<>>, <<>>)
 PMark(ms)   == Item("pmark", "-", <<>>, 0, FALSE, "-", ms, <<>>, <<>>)
@@ -131,6 +136,7 @@ PyViaImports(ws, f, n, seen) ==
         Deliver(i) ==
             CASE its[i].k = "star" -> PyProvides(ws, its[i].mod, n, seen \cup {f})
               [] its[i].k = "imp" /\ its[i].name = n -> PyProvides(ws, its[i].mod, n, seen \cup {f})
+              [] its[i].k = "impas" /\ its[i].name = n -> PyProvides(ws, its[i].mod, its[i].marks[1], seen \cup {f})
               [] its[i].k = "plugins" /\ i = LastPluginsIdx(ws, f)
                                       -> PyProvides(ws, its[i].mod, n, seen \cup {f})
               [] OTHER -> NoDef
@@ -142,7 +148,8 @@ RECURSIVE ImportClosure(_, _, _)
 ImportClosure(ws, f, seen) ==
     IF f = NoFile \/ f \in seen \/ ~ws[f].present THEN {}
     ELSE {f} \cup UNION { ImportClosure(ws, ws[f].items[i].mod, seen \cup {f})
-                          : i \in { j \in ItemIdx(ws, f) : ws[f].items[j].k \in {"star", "imp", "plugins"} } }
+                          : i \in { j \in ItemIdx(ws, f) : ws[f].items[j].k \in {"star", "imp", "impas"}
+                                                           \/ (ws[f].items[j].k = "plugins" /\ j = LastPluginsIdx(ws, f)) } }
 
 PluginFiles(ws) == { f \in Files : RoleOf[f] = "plugin" /\ ws[f].present }
 ThirdFiles(ws)  == { f \in Files : RoleOf[f] = "third"  /\ ws[f].present }
@@ -159,7 +166,9 @@ PyLevel(ws, U, c, n) ==
     ELSE PyProvides(ws, c, n, {})
 
 PyResolveSet(ws, U, n, excl) ==
-    LET same  == LastDefIn(ws, U, n, excl)
+    LET own   == LastDefIn(ws, U, n, excl)
+        \* a module's namespace also holds what the module itself imports (test modules: C14)
+        same  == IF own # NoDef \/ RoleOf[U] = "conftest" THEN own ELSE PyViaImports(ws, U, n, {})
         chain == Chain(DirOf[U])
         lvl(j) == PyLevel(ws, U, ConftestAt(chain[j]), n)
         hits  == { j \in 1..Len(chain) : lvl(j) # NoDef }
